@@ -54,6 +54,16 @@ def programs(tier):
     out.append(('nested-same-name', ul({'tag': 'li', 'indent': 2, 'close_indent': 2, 'repeat': ['x', py('s1')], 'children': [
         {'tag': 'b', 'indent': 4, 'repeat': ['x', py('s2')], 'children': [I('x'), ',', I('repeat.x.number')]}]}),
         [['s1', 'iter:list', 0], ['s2', 'iter:tuple', 1]]))
+    # after a nested loop over the same name is finished, repeat.x is the outer loop's again
+    out.append(('nested-same-name-probe-after', ul({'tag': 'li', 'indent': 2, 'close_indent': 2, 'repeat': ['x', py('s1')], 'children': [
+        I('repeat.x.number'), {'tag': 'b', 'indent': 4, 'repeat': ['x', py('s2')], 'children': [I('x')]},
+        '[', I('x'), ':', I('repeat.x.number'), ':', I('bool(repeat.x.end)'), ':', I('repeat.x.length'), ']']}),
+        [['s1', 'iter:list', 0], ['s2', 'iter:tuple', 1]]))
+    # indentation written with tabs (and tabs mixed with blanks)
+    out.append(('tab-indentation', {'tag': 'ul', 'close_indent': 0, 'children': [
+        {'tag': 'li', 'indent': '\t', 'close_indent': '\t', 'repeat': ['x', py('s1')], 'children': [
+            {'tag': 'b', 'indent': '\t \t', 'repeat': ['y', py('s2')], 'children': [I('x'), I('y')]}]}]},
+        [['s1', 'iter:list', 0], ['s2', 'iter:list', 1]]))
     out.append(('after-sibling', ul({'tag': 'li', 'indent': 2, 'children': ['first']},
                                     {'tag': 'li', 'indent': 2, 'repeat': ['x', py('seq')], 'children': [I('x')]},
                                     {'tag': 'li', 'indent': 2, 'children': ['last']}),
